@@ -1,8 +1,11 @@
-(* J5sLink.v — model of the one part of protocompile's linker that decides what a type name
-   written by j5convert denotes: resolution of a name without a leading dot, from the scope
-   of the field outwards (linker/resolve.go: resolve, messageScope, fileScope,
-   resolveElementRelative).  Names with a leading dot are taken as they are: j5convert
-   produces them only for types it found in the export tables.
+(* J5sLink.v — model of what happens to the type names j5convert writes between ConvertJ5File
+   and the linked descriptor.  Since fix 2ef7c92 protobuild qualifies every name without a
+   leading dot before linking (packages.go qualifyTypeNames): a name that is a nested message
+   of the message holding the field (a map entry) is qualified with that message, every other
+   one (the path of an inline type below the package, "Outer.Inner") with the package.  Names
+   with a leading dot are taken as they are: j5convert produces them only for types it found in
+   the export tables.  Method input / output types are not touched by qualifyTypeNames; the
+   linker resolves them in the file scope (linker/resolve.go fileScope).
    Executable, stdlib only, no proofs. *)
 From Coq Require Import String List NArith Bool.
 From J5V.lib Require Import Outcome Corr.
@@ -31,66 +34,33 @@ Fixpoint msg_syms (pre : list str) (m : dmsg) {struct m} : list (list str) :=
 Definition file_syms (ms : list dmsg) (es : list denum) : list (list str) :=
   flat_map (msg_syms []) ms ++ map (fun e => [en_name e]) es.
 
-(* resolve: the enclosing message scopes innermost first, then the file scope.  In a scope
-   whose name is S the first component decides: if S.first exists the whole name must exist
-   below S, otherwise the next scope is tried.  [scope_rev] is the reversed path of the
-   message containing the field. *)
-Fixpoint resolve_rel (syms : list (list str)) (scope_rev : list str) (first : str) (parts : list str)
-  : outcome (list str) :=
-  match scope_rev with
-  | [] =>
-      if sym_mem [first] syms then
-        if sym_mem parts syms then Ok parts else Err "unknown type: resolved to a name which is not defined"
-      else Err "unknown type"
-  | _ :: outer =>
-      let scope := rev scope_rev in
-      if sym_mem (scope ++ [first]) syms then
-        if sym_mem (scope ++ parts) syms then Ok (scope ++ parts)
-        else Err "unknown type: resolved to a name which is not defined"
-      else resolve_rel syms outer first parts
-  end.
-
-Definition link_name (syms : list (list str)) (fpkg : str) (scope : list str) (tn : str) : outcome str :=
+(* qualifyTypeNames for one field of the message at [scope] whose nested messages are [nested] *)
+Definition link_name (nested : list str) (fpkg : str) (scope : list str) (tn : str) : str :=
   match tn with
-  | [] => Ok []
+  | [] => []
   | c :: _ =>
-      if c =? 46 then Ok tn
-      else match split 46 tn with
-           | (first :: _) as parts =>
-               omap (abs_name fpkg) (resolve_rel syms (rev scope) first parts)
-           | [] => Err "empty type name"
-           end
+      if c =? 46 then tn
+      else if existsb (str_eqb tn) nested then abs_name fpkg (scope ++ [tn])
+      else dot ++ fpkg ++ dot ++ tn
   end.
 
-Fixpoint link_fields (syms : list (list str)) (fpkg : str) (scope : list str) (fs : list dfield)
-  : outcome (list dfield) :=
-  match fs with
-  | [] => Ok []
-  | f :: r =>
-      obind (link_name syms fpkg scope (f_tname f)) (fun tn =>
-      obind (link_fields syms fpkg scope r) (fun r' =>
-        Ok (mkField (f_name f) (f_json f) (f_num f) (f_type f) (f_label f) (f_opt3 f) tn (f_oneof f) :: r')))
-  end.
+Definition link_field (nested : list str) (fpkg : str) (scope : list str) (f : dfield) : dfield :=
+  mkField (f_name f) (f_json f) (f_num f) (f_type f) (f_label f) (f_opt3 f)
+          (link_name nested fpkg scope (f_tname f)) (f_oneof f).
 
-Fixpoint link_msg (syms : list (list str)) (fpkg : str) (pre : list str) (m : dmsg) {struct m} : outcome dmsg :=
+Fixpoint link_msg (fpkg : str) (pre : list str) (m : dmsg) {struct m} : dmsg :=
   match m with
   | DMsg n k fs ms es =>
-      obind (link_fields syms fpkg (pre ++ [n]) fs) (fun fs' =>
-      obind ((fix go (l : list dmsg) : outcome (list dmsg) :=
-                match l with
-                | [] => Ok []
-                | x :: r => obind (link_msg syms fpkg (pre ++ [n]) x) (fun x' =>
-                            obind (go r) (fun r' => Ok (x' :: r')))
-                end) ms) (fun ms' =>
-        Ok (DMsg n k fs' ms' es)))
+      DMsg n k (map (link_field (map dm_name ms) fpkg (pre ++ [n])) fs)
+           ((fix go (l : list dmsg) : list dmsg :=
+               match l with
+               | [] => []
+               | x :: r => link_msg fpkg (pre ++ [n]) x :: go r
+               end) ms)
+           es
   end.
 
-Fixpoint link_msgs (syms : list (list str)) (fpkg : str) (l : list dmsg) : outcome (list dmsg) :=
-  match l with
-  | [] => Ok []
-  | x :: r => obind (link_msg syms fpkg [] x) (fun x' =>
-              obind (link_msgs syms fpkg r) (fun r' => Ok (x' :: r')))
-  end.
+Definition link_msgs (fpkg : str) (l : list dmsg) : list dmsg := map (link_msg fpkg []) l.
 
 (* method input/output types are resolved in the file scope; a first component that is no
    symbol of the file is a package of an imported file (google.api.HttpBody) *)
@@ -130,9 +100,8 @@ Fixpoint link_services (syms : list (list str)) (fpkg : str) (l : list dservice)
 
 Definition link_file (f : dfile) : outcome dfile :=
   let syms := file_syms (fl_msgs f) (fl_enums f) in
-  obind (link_msgs syms (fl_pkg f) (fl_msgs f)) (fun ms =>
   obind (link_services syms (fl_pkg f) (fl_svcs f)) (fun ss =>
-    Ok (mkDfile (fl_path f) (fl_pkg f) (fl_deps f) ms (fl_enums f) ss))).
+    Ok (mkDfile (fl_path f) (fl_pkg f) (fl_deps f) (link_msgs (fl_pkg f) (fl_msgs f)) (fl_enums f) ss)).
 
 Fixpoint link_files (l : list dfile) : outcome (list dfile) :=
   match l with
